@@ -39,12 +39,20 @@ class SRecord:
 def write_srecord(obj, f):
     """Write object to srecord"""
     data = obj.get_section("code").data
+    # Pick the data record type by the address size needed, and the
+    # matching termination record type:
+    if len(data) <= 0x10000:
+        data_typ, end_typ = 1, 9
+    elif len(data) <= 0x1000000:
+        data_typ, end_typ = 2, 8
+    else:
+        data_typ, end_typ = 3, 7
     record = SRecord(0, 0, b"HDR")
     print(record.to_line(), file=f)
     address = 0
     for chunk in chunks(data):
-        record = SRecord(1, address, chunk)
+        record = SRecord(data_typ, address, chunk)
         print(record.to_line(), file=f)
         address += len(chunk)
-    record = SRecord(9, 0, bytes())
+    record = SRecord(end_typ, 0, bytes())
     print(record.to_line(), file=f)
